@@ -27,7 +27,12 @@ Tables ==
     [name |-> "aggr_depth",       side |-> "p21",     cap |-> 100,   guard |-> "dynamic"],
     [name |-> "param_count",      side |-> "p21",     cap |-> 64,    guard |-> "dynamic"],
     [name |-> "enum_token",       side |-> "p21",     cap |-> 8192,  guard |-> "dynamic"],
-    [name |-> "complex_parts",    side |-> "p21",     cap |-> 64,    guard |-> "dynamic"] }
+    [name |-> "complex_parts",    side |-> "p21",     cap |-> 64,    guard |-> "dynamic"],
+    [name |-> "comment_len",      side |-> "p21",     cap |-> 8192,  guard |-> "dynamic"],   \* read_func.h MAX_COMMENT_LENGTH (limit removed by fix)
+    [name |-> "comment_in_value", side |-> "p21",     cap |-> 8192,  guard |-> "dynamic"],
+    [name |-> "pre_header",       side |-> "p21",     cap |-> 8192,  guard |-> "dynamic"],   \* STEPfile::FindHeaderSection (was char buf[BUFSIZ])
+    [name |-> "header_string",    side |-> "p21",     cap |-> 8192,  guard |-> "dynamic"],
+    [name |-> "instance_id",      side |-> "p21",     cap |-> 19,    guard |-> "dynamic"] }  \* digits of an instance number
 
 VARIABLES len       \* [table name -> units currently stored]
 Names == {t.name : t \in Tables}
@@ -48,9 +53,13 @@ NoOverflow == \A n \in Names : len[n] < T(n).cap
 (* tables measured in bytes also get an input five orders of magnitude long; tables measured in nesting levels or *)
 (* item counts stop at ten times their capacity (the work per item is not constant, so 10^5 items only tests patience) *)
 ByteSized(t) == t.name \in {"tail_remark", "embedded_remark", "identifier_len", "string_literal", "real_token", "int_token",
-                            "string_value", "keyword_len", "enum_token"}
+                            "string_value", "keyword_len", "enum_token", "comment_len", "comment_in_value", "pre_header", "header_string"}
 Family(deep) == UNION {{[table |-> t.name, side |-> t.side, n |-> k] :
                           k \in Sizes(t) \cup (IF deep THEN {10 * t.cap} \cup (IF ByteSized(t) THEN {100000} ELSE {}) ELSE {})} : t \in Tables}
+
+(* inputs that are not exchange files at all: what the reader is handed may be empty, end anywhere in the        *)
+(* structure, or not be a readable file                                                                        *)
+Degenerate == {"empty", "magic_only", "header_only", "data_only", "no_endsec", "no_end_marker", "missing_file", "directory", "nul_bytes", "binary_noise"}
 
 (* verdict on one instrumented run of the implementation *)
 SafeRun(rc, signalled, sanitizer, timedout) == ~signalled /\ ~sanitizer /\ ~timedout /\ rc \in 0..2
